@@ -88,6 +88,9 @@ class Auditor:
         return bad
 
 
+PRIMES = ['', '.', 'sub/..', 'a.txt', 'sub', 'sub/x.txt', './', 'sub/../a.txt']
+
+
 def classify(path: str) -> str:
     """Mechanism key: which kind of path got through."""
     if 'root_evil' in path or 'rootx' in path:
@@ -117,7 +120,20 @@ def probe_path(run, sb: Sandbox, aud: Auditor, fs, root: str, label: str, path: 
     def fail(what: str, witness: Any = None, key: Optional[str] = None) -> None:
         run.violation(f'[{label}] {what}', witness=witness, case=case, engine=engine, key=key or classify(path))
 
+    prime_i = [0]
+
     def guarded(op: str, fn):
+        if label == 'raw-primed':
+            # history: immediately before every operation the same object answers a harmless question about a path inside the
+            # root (the root folder itself, a file in it, a subfolder ...): whatever it remembers must not help the next path out
+            prime = PRIMES[(prime_i[0] + len(path)) % len(PRIMES)]
+            prime_i[0] += 1
+            for q in (lambda: prime in fs, lambda: list(itertools.islice(fs.walk_folder(prime), 2)), lambda: fs[prime]):
+                try:
+                    q()
+                except Exception:
+                    pass
+            run.count('primed_operations')
         aud.events.clear()
         aud.armed = True
         try:
@@ -190,6 +206,7 @@ def make_systems(sb: Sandbox):
     systems.append(('chain-prefix-sub', FileSystemChain((RawFileSystem(sb.root), 'sub')), sb.root, 'sub'))
     systems.append(('raw-sub-root', RawFileSystem(os.path.join(sb.root, 'sub')), os.path.join(sb.root, 'sub'), ''))
     systems.append(('raw-after-unconstrained-twin', RawFileSystem(sb.root, constrain_path=True), sb.root, ''))
+    systems.append(('raw-primed', RawFileSystem(sb.root, constrain_path=True), sb.root, ''))
     return systems
 
 
@@ -254,7 +271,7 @@ def main(run, shard=(0, 1)) -> None:
         sb.cleanup()
     probe.report(run)
     probe.check_reached(run)
-    run.require('operations', 'root_escape_errors', 'paths_enumerated')
+    run.require('operations', 'root_escape_errors', 'paths_enumerated', 'primed_operations')
 
 
 def replay(run, data) -> None:
